@@ -387,7 +387,7 @@ register_b09(
 import suite_ctl  # noqa: E402
 
 PROPS["C02"] = {
-    "lean": ["CocoVerif.Props.C02"],
+    "lean": ["CocoVerif.Props.C02", "CocoVerif.Props.C02Front"],
     "lean_extra": B09_LEAN_EXTRA + ["CocoVerif.Props.C07"],
     "suites": [{"name": "ctl", "relevant": lambda c: True, "oracle": suite_ctl.oracle, "classify": suite_ctl.classify}],
     "search": None,
@@ -598,6 +598,14 @@ def replay_request(pid, request):
         return OI.c19(case, impl) if pid in ("C18", "C19") else None
     raise ValueError(request)
 
+
+# every property of the transpiler depends on the front end (grammar, visitor, constructors): the parse / front / e2e suites
+# (the whole tool in the model, on generated texts and on the probe programs of all property suites) are attached to all of them,
+# so that a change confined to the front end is at least a correspondence disagreement for the property it can break
+for _pid in ("C02", "C05", "C06", "C07", "C10", "C11", "C12", "C13", "C14"):
+    _have = {s_["name"] for s_ in PROPS[_pid]["suites"]}
+    PROPS[_pid]["suites"] += [s_ for s_ in FRONT_SUITES if s_["name"] not in _have]
+    PROPS[_pid]["lean_extra"] = list(PROPS[_pid].get("lean_extra", [])) + [m for m in FRONT_LEAN if m not in PROPS[_pid].get("lean_extra", [])]
 
 # the regular expressions of procbank.py / grammar.py, the way they are used, and the numeric constants the models carry by
 # hand are regenerated (Gen.Consts) and must equal the pinned copy the models were written against (Tie.Consts)
